@@ -271,11 +271,21 @@ def gen_pre(rng, n_cases, big):
     return out
 
 
+# witnesses of the binary64 theorems C20_aabb_float_inside_implies_real_inside_binary64_refuted (centre -2^-54, half 1, point 1:
+# isInside accepts a point outside the real box by 2^-54) and C20_aabb_interval_roundtrip_binary64_refuted ([2^-55, 1] comes back
+# as [0, 1]), embedded in 2D; replayed on the implementation in every run (the model's verdict on them is the theorem)
+FLOAT_WITNESSES = [
+    "aabbc f64 2 %s %s 1 %s" % (hv([-2.0 ** -54, 0.0]), hv([1.0, 1.0]), hv([1.0, 0.0])),
+    "aabbi f64 2 %s %s 1 %s" % (hv([2.0 ** -55, 0.0]), hv([1.0, 1.0]), hv([0.5, 0.5])),
+]
+
+
 def gen(rng, tier):
     big = tier == "thorough"
     m = 8 if big else 1
     return [("aabb", gen_aabb(rng, 1500 * m)), ("obb", gen_obb(rng, 1500 * m)), ("interval", gen_ival(rng, 1200 * m)),
-            ("containers", gen_cont(rng, 500 * m, True)), ("preconditioner", gen_pre(rng, 700 * m, True))]
+            ("containers", gen_cont(rng, 500 * m, True)), ("preconditioner", gen_pre(rng, 700 * m, True)),
+            ("float-witnesses", FLOAT_WITNESSES)]
 
 
 # --------------------------------------------------------------------------------------------- parsing
@@ -560,7 +570,7 @@ CHECK = {
             "and +-1/8 (dyadic data: the closed/open distinction is exact); oriented boxes with exact (signed-permutation) and "
             "general proper rotations, 2D and 3D; interval pairs nested/disjoint/touching/overlapping in 1D, 2D, 3D; point sets of "
             "1..1000 points in every octant pattern including all-negative and planar sets, float and double, vector/deque/list "
-            "containers, Cartesian and homogeneous point types.  Non-trivial = a box/interval case showing both verdicts, a set of >= 2 points",
+            "containers, Cartesian and homogeneous point types; the two witnesses of the binary64 _refuted theorems.  Non-trivial = a box/interval case showing both verdicts, a set of >= 2 points",
     "trusted": ["translate/tr_C20_boxes.py (clang JSON AST of the instantiated templates -> gen/SrcBoxes.v; per-axis scalar reading of Eigen "
                 "fixed-size expressions, matrix-product component = left-to-right sum of products, maxCoeff = left fold of std::max); "
                 "the tie lemmas coq/SrcTieC20.v are proved, not trusted",
